@@ -402,10 +402,11 @@ class Check:
         }
         os.makedirs(os.path.join(VERIF, "evidence"), exist_ok=True)
         path = os.path.join(VERIF, "evidence", self.pid + ".json")
-        with open(path + ".tmp", "w") as f:
+        tmp = "%s.%d.tmp" % (path, os.getpid())      # unique: two runs of one check must not share the temporary file
+        with open(tmp, "w") as f:
             json.dump(ev, f, indent=1, sort_keys=True, ensure_ascii=True)
             f.write("\n")
-        os.replace(path + ".tmp", path)
+        os.replace(tmp, path)
         return path
 
     def write_replays(self):
